@@ -47,6 +47,7 @@ const (
 	c19HeapLimit = 256 << 20       // heap growth allowed for one load
 	c19ReadLimit = 1 << 20         // reads tolerated after the input reported EOF
 	c19GcWindow  = 400 * time.Second
+	c19Size      = 1 << 16 // 1024 entries per store shard: the contents (<= 300 entries) are never evicted
 )
 
 var c19Cfg = vs.Config{NoWatchdog: true, Horizon: time.Duration(math.MaxInt64), MaxEvents: 1 << 40}
@@ -438,7 +439,7 @@ func c19RunRoundtrip(in c19RtIn, verbose bool) c19Verdict {
 	}
 	x := vs.Run1(c19Cfg, func() {
 		id, _ := vs.CurThread()
-		args := func() *Args { return &Args{Size: 1024, LazyCacheTTL: cf.Lazy} }
+		args := func() *Args { return &Args{Size: c19Size, LazyCacheTTL: cf.Lazy} }
 		a, u, ops := c19Populate(cf, id, args())
 		defer a.Close()
 		v.Ops += int64(ops)
@@ -589,7 +590,7 @@ func c19LoadAt(at time.Duration, lazy int, data []byte) c19Load {
 	var r c19Load
 	x := vs.Run1(c19Cfg, func() {
 		vs.Advance(at)
-		c := NewCache(&Args{Size: 1024, LazyCacheTTL: lazy}, Opts{})
+		c := NewCache(&Args{Size: c19Size, LazyCacheTTL: lazy}, Opts{})
 		c19Yield() // the plugin's background goroutines (sweeper, dump loop) start now
 		var m0, m1 runtime.MemStats
 		runtime.ReadMemStats(&m0)
@@ -703,6 +704,10 @@ func c19CheckTrunc(cf c19Conf, dump []byte, k int, intact map[string]c19Snap, st
 			pos = "all-data-no-trailer"
 		}
 	}
+	if r.Status == 200 && k == 0 && len(r.Entries) == 0 {
+		// a 0-byte file carries no sign of having been a dump; accepting it as "nothing to load" is not counted
+		return "trunc/" + cf.nclass() + "/empty-file/accepted/loaded-none", "", "", ""
+	}
 	if r.Status == 200 {
 		return "", "trunc/accepted/" + pos, fmt.Sprintf("loading the first %d of %d dump bytes reported success (contents n=%d lazy=%d, %d entries loaded)", k, len(dump), cf.N, cf.Lazy, len(r.Entries)), ""
 	}
@@ -752,7 +757,7 @@ func c19CheckFile(family, region string, at time.Duration, lazy int, data []byte
 func c19MakeDump(cf c19Conf) (dump []byte, ops int, err string) {
 	x := vs.Run1(c19Cfg, func() {
 		id, _ := vs.CurThread()
-		a, _, n := c19Populate(cf, id, &Args{Size: 1024, LazyCacheTTL: cf.Lazy})
+		a, _, n := c19Populate(cf, id, &Args{Size: c19Size, LazyCacheTTL: cf.Lazy})
 		ops = n + 1
 		code, d := c19Get(a)
 		if code != 200 {
@@ -893,7 +898,7 @@ func c19RunDumpFile(dir string, lazy int, res *vr.Result, viol func(sig, desc st
 	var dumpedAt time.Duration
 	x := vs.Run1(c19Cfg, func() {
 		id, _ := vs.CurThread()
-		a := NewCache(&Args{Size: 1024, LazyCacheTTL: lazy, DumpFile: path, DumpInterval: 60}, Opts{})
+		a := NewCache(&Args{Size: c19Size, LazyCacheTTL: lazy, DumpFile: path, DumpInterval: 60}, Opts{})
 		c19Yield() // the plugin's background goroutines (sweeper, dump loop) start now
 		defer func() {
 			a.args.DumpFile = "" // no dump on close: the crash-point enumeration below owns the file
@@ -929,7 +934,7 @@ func c19RunDumpFile(dir string, lazy int, res *vr.Result, viol func(sig, desc st
 		snapA = c19Snapshot(a)
 		// restart: a second instance with the same dump_file must serve what the first one serves
 		u.answer, u.always = nil, false
-		bb := NewCache(&Args{Size: 1024, LazyCacheTTL: lazy}, Opts{})
+		bb := NewCache(&Args{Size: c19Size, LazyCacheTTL: lazy}, Opts{})
 		c19Yield() // the plugin's background goroutines (sweeper, dump loop) start now
 		defer bb.Close()
 		bb.args.DumpFile = path
@@ -987,7 +992,7 @@ func c19RunDumpFile(dir string, lazy int, res *vr.Result, viol func(sig, desc st
 		var got map[string]c19Snap
 		x := vs.Run1(c19Cfg, func() {
 			vs.Advance(dumpedAt)
-			c := NewCache(&Args{Size: 1024, LazyCacheTTL: lazy}, Opts{})
+			c := NewCache(&Args{Size: c19Size, LazyCacheTTL: lazy}, Opts{})
 			c19Yield() // the plugin's background goroutines (sweeper, dump loop) start now
 			c.args.DumpFile = p2
 			lerr = c.loadDump()
@@ -1004,6 +1009,8 @@ func c19RunDumpFile(dir string, lazy int, res *vr.Result, viol func(sig, desc st
 		}
 		d, n := c19Subset(got, intact)
 		switch {
+		case k == 0 && lerr == nil && n == 0:
+			// see c19CheckTrunc: an empty file accepted as "nothing to load" is not counted
 		case k < len(file) && lerr == nil:
 			viol("trunc/accepted/dumpfile", fmt.Sprintf("startup load of a dump_file cut after %d of %d bytes reported no error (%d entries)", k, len(file), n), in)
 		case k == len(file) && lerr != nil:
